@@ -510,6 +510,64 @@ func TestC05(t *testing.T) {
 		nontrivial := false
 		var sig []string
 		for b := 0; b < nb; b++ {
+			if b > 0 && rapid.IntRange(0, 5).Draw(t, "purge") == 0 {
+				// the cache is purged with a database model of the same schema whose client indexes
+				// are others: from here on these are the indexes of the (empty) cache
+				var plain []string
+				for _, c := range tb.Cols {
+					if c.Shape() == kit.ShScalar || c.Shape() == kit.ShOpt {
+						plain = append(plain, c.Name)
+					}
+				}
+				var newClient [][]c05ColKey
+				var cis []model.ClientIndex
+				for i, n := 0, rapid.IntRange(0, 3).Draw(t, "purgeclientidx"); i < n; i++ {
+					var cols []c05ColKey
+					for j, wd := 0, rapid.IntRange(1, 2).Draw(t, "purgecwidth"); j < wd; j++ {
+						if rapid.IntRange(0, 3).Draw(t, "purgemapkey") == 0 {
+							cols = append(cols, c05ColKey{Col: "m", Key: rapid.SampledFrom([]string{"k1", "k2"}).Draw(t, "purgekey")})
+						} else {
+							cols = append(cols, c05ColKey{Col: rapid.SampledFrom(plain).Draw(t, "purgeccol")})
+						}
+					}
+					if len(cols) == 2 && cols[0] == cols[1] {
+						cols = cols[:1]
+					}
+					newClient = append(newClient, cols)
+					ci := model.ClientIndex{}
+					for _, ck := range cols {
+						k := model.ColumnKey{Column: ck.Col}
+						if ck.Key != "" {
+							k.Key = ck.Key
+						}
+						ci.Columns = append(ci.Columns, k)
+					}
+					cis = append(cis, ci)
+				}
+				cidx2 := map[string][]model.ClientIndex{}
+				for tn, v := range cidx {
+					if tn != tb.Name {
+						cidx2[tn] = v
+					}
+				}
+				if len(cis) > 0 {
+					cidx2[tb.Name] = cis
+				}
+				w2, err := kit.BuildWorld(s, cidx2)
+				if err != nil {
+					t.Fatalf("world: %v", err)
+				}
+				tc.Purge(w2.DBModel)
+				twin.Purge(w2.DBModel)
+				w, cidx, rc, cur = w2, cidx2, tc.Table(tb.Name), kit.Rows{}
+				cfg.Client = newClient
+				kase.Indexes = cfg
+				kase.Batches = append(kase.Batches, fmt.Sprintf("purge with client indexes %v", newClient))
+				kit.Label("C05", "purged-with-other-client-indexes")
+				if m := checkCacheIndexes(w, tb, cfg, rc, cur, nil); m != nil {
+					kit.Fail(t, "C05", m.Class, kase, "right after the purge: %s", m.Msg)
+				}
+			}
 			var next kit.Rows
 			handover := false
 			for tries := 0; ; tries++ {
